@@ -79,6 +79,12 @@ class Ch(str):
     __slots__ = ()
 
 
+class Hint:
+    """a length used as a capacity hint: it may be added to and handed to `with_capacity` / `reserve`, nothing else (any other use
+    is refused, so the result cannot depend on it)"""
+    __slots__ = ()
+
+
 class _Return(Exception):
     def __init__(self, v):
         self.v = v
@@ -318,6 +324,10 @@ class Interp:
         if op == "And":
             return self.truth(self.ev(n["a"], env), n) and self.truth(self.ev(n["b"], env), n)
         a, b = self.ev(n["a"], env), self.ev(n["b"], env)
+        if isinstance(a, Hint) or isinstance(b, Hint):
+            if op in ("Add", "Mul") and all(isinstance(x, (Hint, int)) and not isinstance(x, bool) for x in (a, b)):
+                return Hint()
+            raise Unsupported("the length of the name is inspected", n.get("sp"))
         if op in ("Eq", "Ne"):
             self._cmp_ok(a, b, n)
             return (a == b) if op == "Eq" else (a != b)
@@ -435,6 +445,8 @@ class Interp:
             return self.dom.has(args[0], "alphabetic") or self.dom.has(args[0], "numeric")
         if path in ("std::string::String::new",) and not args:
             return ""
+        if path in ("std::string::String::with_capacity",) and len(args) == 1 and (isinstance(args[0], Hint) or (isinstance(args[0], int) and not isinstance(args[0], bool))):
+            return ""     # an empty string whatever the capacity
         if last in ("from", "to_string", "to_owned", "into") and len(args) == 1 and isinstance(args[0], str):
             return str(args[0]) if not isinstance(args[0], Ch) or last != "from" else str(args[0])
         if last == "Some" and len(args) == 1:
@@ -489,6 +501,10 @@ class Interp:
                 return [Ch(c) for c in recv]
             if name == "is_empty":
                 return recv == ""
+            if name == "len" and not args:
+                return Hint()
+            if name in ("reserve", "reserve_exact") and len(args) == 1 and isinstance(args[0], (Hint, int)) and not isinstance(args[0], bool):
+                return ()
             if name in ("to_string", "to_owned", "clone", "as_str", "as_ref", "borrow", "into", "deref", "as_mut_str"):
                 return recv
             if name in ("starts_with", "ends_with") and len(args) == 1:
